@@ -455,12 +455,14 @@ def _kill(p):
         pass
 
 
-def run_jobs(jobs: list[dict], budget_s: float, per_job_s: float = 150.0, nworkers: int = 4, startup_s: float = 90.0,
+def run_jobs(jobs: list[dict], budget_s: float, per_job_s: float = 150.0, nworkers: int = 4, startup_s: float = 150.0,
              on_result=None):
     """Run compile() jobs in isolated children.  Returns a list of result records (same order as `jobs`);
     a record is {'ok': False, 'timeout': True} when the job hung or the budget ran out.  `on_result(i, rec)` is
     called as results arrive; returning True stops the run (remaining jobs are marked skipped)."""
     stop = False
+    info = run_jobs.last_info = dict(rounds=0, started=0, first_result_s=None)
+    t_begin = time.time()
     t_end = time.time() + budget_s
     results: dict[int, dict] = {}
     pending = list(enumerate(jobs))
@@ -468,6 +470,7 @@ def run_jobs(jobs: list[dict], budget_s: float, per_job_s: float = 150.0, nworke
     rounds = 0
     while pending and time.time() < t_end and rounds < 6:
         rounds += 1
+        info['rounds'] = rounds
         inp = tmp / f'in{rounds}.json'
         outp = tmp / f'out{rounds}.jsonl'
         inp.write_text(json.dumps(pending))
@@ -488,11 +491,14 @@ def run_jobs(jobs: list[dict], budget_s: float, per_job_s: float = 150.0, nworke
                     continue
                 if d.get('started'):
                     started = True
+                    info['started'] += 1
                     cur_t = time.time()
                 elif d.get('begin'):
                     cur, cur_t = d['idx'], time.time()
                 else:
                     results[d['idx']] = d
+                    if info['first_result_s'] is None:
+                        info['first_result_s'] = round(time.time() - t_begin, 1)
                     cur = None
                     cur_t = time.time()
                     if on_result is not None and on_result(d['idx'], d):
